@@ -69,6 +69,58 @@ func compSkip(p *ref.Plan, ex *lib.Expectation) func(slot string, g uint16, idx 
 	}
 }
 
+// compressedTimestampSkip leaves out the timestamp field of records that had a compressed-timestamp
+// header and no timestamp field on the wire (what the header then yields is C12's subject). When
+// field 253 IS on the wire of such a record, its wire value must win and is compared.
+func compressedTimestampSkip(p *ref.Plan, ex *lib.Expectation) func(slot string, g uint16, idx int, sindex int) bool {
+	prof := lib.Profile()
+	type key struct {
+		slot string
+		idx  int
+	}
+	skip := map[key]bool{}
+	single := map[string]bool{}
+	var defs [16]*ref.Record
+	mi := 0
+	for i := range p.Records {
+		r := &p.Records[i]
+		if r.IsDef {
+			defs[r.Local] = r
+			continue
+		}
+		for mi < len(ex.Meta) && ex.Meta[mi].Seq < i {
+			mi++
+		}
+		if mi >= len(ex.Meta) || ex.Meta[mi].Seq != i || !r.Compressed {
+			continue
+		}
+		d := defs[r.Local]
+		has := false
+		if d != nil {
+			for _, f := range d.Fields {
+				if f.Num == 253 {
+					has = true
+				}
+			}
+		}
+		if !has {
+			skip[key{ex.Meta[mi].Slot, ex.Meta[mi].Index}] = true
+		}
+	}
+	for _, s := range ex.Content.Slots {
+		if s.Single {
+			single[s.Name] = true
+		}
+	}
+	return func(slot string, g uint16, idx int, si int) bool {
+		pf := prof.Field(g, 253)
+		if pf == nil || pf.Sindex != si {
+			return false
+		}
+		return skip[key{slot, idx}] || single[slot] || slot == "FileId"
+	}
+}
+
 // countPlanCoverage bumps the per-field and per-type counters for a plan.
 func countPlanCoverage(c *lib.Ctx, p *ref.Plan, prefix string) (nontrivial int) {
 	prof := lib.Profile()
@@ -160,6 +212,11 @@ func c02Opts(rng *lib.Rand, idx uint64) lib.GenOpts {
 		BigEndian:     50,
 		Unknown:       30,
 		ZeroFieldDefs: 3,
+		// some records behind compressed-timestamp headers: a wire field must decode to its wire
+		// value whatever the record header says
+		Compressed: 10,
+		NoTimeZero: true,
+		Monster:    2,
 	}
 	// Draw mostly from what the container hosts, sometimes from everything.
 	if !rng.Chance(1, 5) {
@@ -173,12 +230,12 @@ func c02Model(c *lib.Ctx, idx uint64) {
 	o := c02Opts(rng, idx)
 	g := lib.NewPlanGen(rng, o)
 	plan := g.Fill()
-	checkPlanDecode(c, plan, "", true)
+	checkPlanDecode(c, plan, "", true, true)
 }
 
 // checkPlanDecode decodes the plan's bytes and compares the result with the
 // model. Shared by the checks whose oracle is the reference interpretation.
-func checkPlanDecode(c *lib.Ctx, plan *ref.Plan, prefix string, skipComp bool) (*lib.Expectation, *lib.Content, bool) {
+func checkPlanDecode(c *lib.Ctx, plan *ref.Plan, prefix string, skipComp bool, skipCompressedTS ...bool) (*lib.Expectation, *lib.Content, bool) {
 	b := plan.Bytes()
 	c.SetInflight(b)
 	ex, err := lib.Expect(plan, lib.ExpectOpts{})
@@ -206,7 +263,12 @@ func checkPlanDecode(c *lib.Ctx, plan *ref.Plan, prefix string, skipComp bool) (
 	got := lib.FileContent(f)
 	co := lib.CompareOpts{Header: true}
 	if skipComp {
-		co.Skip = compSkip(plan, ex)
+		cs := compSkip(plan, ex)
+		co.Skip = cs
+		if len(skipCompressedTS) > 0 && skipCompressedTS[0] {
+			ts := compressedTimestampSkip(plan, ex)
+			co.Skip = func(slot string, g uint16, idx int, si int) bool { return cs(slot, g, idx, si) || ts(slot, g, idx, si) }
+		}
 	}
 	diffs := lib.CompareContent(ex.Content, got, co)
 	if len(diffs) > 0 {
@@ -344,6 +406,7 @@ func c02Large(c *lib.Ctx, idx uint64) {
 	o := c02Opts(rng, idx)
 	o.Records = 300 + rng.Intn(2200)
 	o.MaxFields = 10
+	o.Monster = 6
 	g := lib.NewPlanGen(rng, o)
 	plan := g.Fill()
 	b := plan.Bytes()
@@ -367,7 +430,8 @@ func c02Large(c *lib.Ctx, idx uint64) {
 		return
 	}
 	got := lib.FileContent(res.File)
-	if diffs := lib.CompareContent(ex.Content, got, lib.CompareOpts{Header: true, Skip: compSkip(plan, ex)}); len(diffs) > 0 {
+	cs, ts := compSkip(plan, ex), compressedTimestampSkip(plan, ex)
+	if diffs := lib.CompareContent(ex.Content, got, lib.CompareOpts{Header: true, Skip: func(slot string, g uint16, idx int, si int) bool { return cs(slot, g, idx, si) || ts(slot, g, idx, si) }}); len(diffs) > 0 {
 		c.Violation(b, "long stream (%d bytes, %s reads): decoded content differs from the wire values: %s", len(b), ch, lib.DiffsString(diffs, 4))
 		return
 	}
